@@ -38,6 +38,7 @@ Fixpoint offenders (ts : list tool) (idx : nat) : wire :=
       ++ (if pre_ok t then [] else [zn idx; -2; 0])
       ++ (if unknown_ok t then [] else [zn idx; -3; 0])
       ++ (if aliases_ok t then [] else [zn idx; -4; 0])
+      ++ (if documented_ok t then [] else [zn idx; -5; 0])
       ++ offenders r (S idx)
   end.
 
